@@ -557,10 +557,12 @@ def _dec_action(data, off, end):
 
 
 def _dec_prop(data, off, end):
-  if end - off < 8:
+  if end - off < 4:
     raise RefError("truncated queue property header")
   t, ln = struct.unpack_from("!HH", data, off)
-  if ln < 8 or off + ln > end:
+  # (the specification pads properties to 8 octets; the length field is what delimits them, and the library lets
+  # a caller build generic properties of any length >= 4)
+  if ln < 4 or off + ln > end:
     raise RefError("queue property length %d" % ln)
   for kind, (code, layout) in QUEUE_PROPS.items():
     if code == t and kind != "ofp_queue_prop_none":
